@@ -1,9 +1,10 @@
 import TensorModel.Ext.Hooks
 import TensorModel.Ext.MinMax
 import TensorModel.Ext.Engines
+import TensorModel.Ext.History
 /-! Registry of operation families (one import + one list entry per family). -/
 namespace TM
 
-def families : List Family := [minMaxFamily, enginesFamily]
+def families : List Family := [minMaxFamily, enginesFamily, historyFamily]
 
 end TM
